@@ -420,6 +420,15 @@ func fuzzOne(data []byte, chunkSeed uint64, bufSel uint8) *verdict {
 	if perr != nil {
 		return nil // malformed by the reference: only C11's no-crash claim applies
 	}
+	// the statement is about canonical bytes: inputs the reference accepts but would encode differently
+	// (leading zeros or '+' in lengths and integers) are outside it
+	var canon []byte
+	for _, v := range vs {
+		canon = ref.Encode(canon, v)
+	}
+	if !bytes.Equal(canon, data[:len(data)-len(rest)]) {
+		return nil
+	}
 	// the proxy treats a non-type first byte as an inline command, also inside arrays; the
 	// reference accepted the input, so no such byte starts a message here.
 	buf := bufSizes[int(bufSel)%len(bufSizes)]
